@@ -80,6 +80,9 @@ func c10Trees() (src, dst tm.Tree) {
 	dst = append(dst, md)
 	// extraneous entries for --delete
 	dst = append(dst, tm.File("extraneous-file", []byte("x"), 0o644, tm.Past), tm.D("extraneous-dir", 0o755, tm.Past), tm.File("extraneous-dir/f", []byte("y"), 0o644, tm.Past), tm.L("extraneous-link", "nowhere"))
+	// extraneous directories without owner write permission (a deleting run has to open them up first), nested
+	dst = append(dst, tm.D("extraneous-ro", 0o555, tm.Past-3), tm.File("extraneous-ro/f", []byte("z"), 0o444, tm.Past), tm.D("extraneous-ro/inner", 0o500, tm.Past-4), tm.File("extraneous-ro/inner/g", []byte("w"), 0o400, tm.Past),
+		tm.Entry{Path: "extraneous-fifo", Type: tm.Fifo, Mode: 0o600, Mtime: tm.Past}, tm.File("extraneous-000", []byte("q"), 0o000, tm.Past))
 	return
 }
 
